@@ -1,6 +1,8 @@
 """C03 - two-collection search returns exactly the query/reference pairs within range."""
 from .. import AnalysisBroken
-from ._nn import get_nn, run_fga
+from ..nnabs import MOD
+from ..terms import show, strip_all
+from ._nn import check_bfs, check_readonly_method, check_role_forwarding, get_nn, resolve_callee, run_fga, wh
 
 CLAIMED = True
 LEVEL = "other"
@@ -18,6 +20,29 @@ def run(r):
     rep.explanation = "Every triplet insertion site of the two lookup methods was typed and its acceptance condition compared with the specification for default mode."
     rep.trust("rapidfuzz.distance.Levenshtein.distance is the exact Levenshtein distance", "DESIGN Appendix A.1 / A.3 / A.4 / A.5 (lemma table)")
     run_fga(r, "C03", {"none"}, labels={"SymdelDB.lookup", "LookupDB.lookup"}, floor=4)
+    # a database object answers every query as a fresh one would: lookup never writes to it
+    check_readonly_method(r, "C03-RO", MOD + "SymdelDB.lookup")
+    check_readonly_method(r, "C03-RO", MOD + "LookupDB.lookup")
+    rep.floor("C03-RO", 2)
+    check_bfs(r, "C03-BFS")
+    rep.floor("C03-BFS", 6)
+    # symdel's two-collection branch delegates to SymdelDB(seqs, max_edits).lookup(seqs2, ...)
+    nn = get_nn(r)
+    q = MOD + "symdel"
+    s = nn.summary(q)
+    rep.analysed(q)
+    n = 0
+    for e in s.events_of("call"):
+        callee, _ = resolve_callee(nn, q, e["term"])
+        if callee in (MOD + "SymdelDB.lookup", MOD + "SymdelDB.__init__"):
+            n += check_role_forwarding(r, "C03-DELEG", q, e["term"], e.node, key=callee.rsplit(".", 1)[1] + " ")
+    from ..ssa import leaves
+    from ..rules import lift_ite
+    cross = [leaf for g, leaf in leaves(lift_ite(strip_all(s.ret))) if any(nn.R._role_of(q, c[2]) == "SEQS2" and not pol for c, pol in g if c[0] == "cmp")]
+    ok = len(cross) == 1 and resolve_callee(nn, q, cross[0])[0] == MOD + "SymdelDB.lookup"
+    rep.ob("C03-DELEG", q, ok, "with a second collection symdel returns SymdelDB(seqs, max_edits).lookup(seqs2, ...) unmodified", wh(r, q, s.func.node),
+           expected="return symdeldb.lookup(seqs2, ...)", found=show(cross[0], 80) if cross else "no two-collection return path", key="delegation return")
+    rep.floor("C03-DELEG", 8)
 
 
 from ..selftest import V  # noqa: E402
@@ -32,6 +57,11 @@ VARIANTS = [
     V("lookup-strict-threshold", N, "                if dist > threshold:\n                    continue\n                ans.append((i, j, dist))", "                if dist >= threshold:\n                    continue\n                ans.append((i, j, dist))", rule="C03-FGA"),
     V("lookup-reports-swapped-positions", N, "ans.append((i, j, dist))", "ans.append((j, i, dist))", rule="C03-IST"),
     V("lookup-length-prefilter", N, "            for j in j_indices:\n                if is_custom and", "            for j in j_indices:\n                if len(seqs2[i]) != len(self.seqs[j]):\n                    continue\n                if is_custom and", rule="C03-FGA"),
+    V("lookup-caches-into-index", N, "        return _make_output(ans, output_type, self.seqs, seqs2)\n\n\ndef _hamming_replacement", "        self.variant_dict[''] = []\n        return _make_output(ans, output_type, self.seqs, seqs2)\n\n\ndef _hamming_replacement", rule="C03-RO"),
+    V("lookup-rebinds-max_edits", N, "        ans = []\n        seqs2 = ensure_numpy(seqs2)\n", "        ans = []\n        self.max_edits = max(1, self.max_edits - 1)\n        seqs2 = ensure_numpy(seqs2)\n", rule="C03-RO"),
+    V("delegation-drops-custom-distance", N, "    return symdeldb.lookup(seqs2, custom_distance=custom_distance,\n", "    return symdeldb.lookup(seqs2,\n", rule="C03-DELEG"),
+    V("delegation-swaps-collections", N, "    return symdeldb.lookup(seqs2, custom_distance=custom_distance,", "    return symdeldb.lookup(seqs, custom_distance=custom_distance,", rule="C03-DELEG"),
+    V("bfs-depth-short", N, "    for edit_distance in range(1, max_edits + 1):", "    for edit_distance in range(1, max_edits):", rule="C03-BFS"),
     V("silent-get-instead-of-membership", N, "                if comb not in self.variant_dict:\n                    continue\n                for j in self.variant_dict[comb]:\n                    j_indices.add(j)",
       "                if comb in self.variant_dict:\n                    for j in self.variant_dict[comb]:\n                        j_indices.add(j)", expect="silent"),
     V("silent-le-threshold", N, "                if dist > threshold:\n                    continue\n                ans.append((i, j, dist))", "                if dist <= threshold:\n                    ans.append((i, j, dist))", expect="silent"),
